@@ -1,53 +1,16 @@
-(* Proofs/FieldMapClean.v — a decision procedure for the invariant [clean] of Proofs/FieldMapGetPut.v
-   ("the value differs from the zero value of its type only along the assigned paths"), to be
-   evaluated on the value the IMPLEMENTATION returned: if it answers true, EVERY path that overlaps
-   no target reads the zero value of its static type (clean_read_zero) — the second conclusion of
-   mapped_get_put, checked exhaustively instead of on probe paths. *)
-From Eino Require Import Base.Util Base.FMUniverse Model.FieldMap Proofs.FieldMapOverlap Proofs.FieldMapGetPut Proofs.FieldMapRun.
+(* Proofs/FieldMapClean.v — soundness of the decision procedure [clean_b] of Model/FieldMapClean.v:
+   if it answers true on a value, the value satisfies the invariant [clean] of Proofs/FieldMapGetPut.v
+   along the target paths, hence EVERY path that overlaps no target reads the zero value of its static
+   type (clean_read_zero) — the second conclusion of mapped_get_put, which the correspondence thereby
+   checks exhaustively on the implementation's Invoke result instead of on probe paths. *)
+From Eino Require Import Base.Util Base.FMUniverse Model.FieldMap Model.FieldMapClean
+  Proofs.FieldMapOverlap Proofs.FieldMapGetPut Proofs.FieldMapRun.
 
-Definition has_nil (W : list path) : bool := existsb is_nil_path W.
-
-Definition is_zero_b (t : ty) (v : val) : bool :=
-  match t, v with
-  | TInt, VInt z => Z.eqb z 0
-  | TStr, VStr s => String.eqb s ""
-  | TAny, VNil => true
-  | TStruct n, VStruct m [] => N.eqb n m
-  | TPtr u, VPtr u' None => ty_eqb u u'
-  | TMap ks u, VMap ks' u' None => Bool.eqb ks ks' && ty_eqb u u'
-  | _, _ => false
-  end.
-
-Definition heads_present (W : list path) (es : list (N * val)) : bool :=
-  forallb (fun p => match p with k :: _ => match aget k es with Some _ => true | None => false end | [] => true end) W.
-
-Fixpoint clean_b (fuel : nat) (env : senv) (t : ty) (v : val) (W : list path) : bool :=
-  match W with
-  | [] => is_zero_b t v
-  | _ :: _ =>
-      if has_nil W then true else
-      match fuel with
-      | O => false
-      | S fuel' =>
-          let fields m fs :=
-            match nlist_get m env with
-            | Some fds => forallb (fun fd => let '(f, (ex, ft)) := fd in
-                                             if ex : bool then clean_b fuel' env ft (field_of ft (aget f fs)) (sub f W) else true) fds
-            | None => true
-            end in
-          let entries e es :=
-            forallb (fun kx => let '(k, x) := kx in
-                               match sub k W with [] => false | _ => clean_b fuel' env e x (sub k W) end) es
-            && heads_present W es in
-          match t, v with
-          | TStruct m, VStruct m' fs => N.eqb m m' && fields m fs
-          | TPtr (TStruct m), VPtr (TStruct m') (Some (VStruct m'' fs)) => N.eqb m m' && N.eqb m m'' && fields m fs
-          | TMap true e, VMap true e' (Some es) => ty_eqb e e' && entries e es
-          | TAny, VMap true TAny (Some es) => entries TAny es
-          | _, _ => false
-          end
-      end
-  end.
+Lemma psub_sub : forall f W, psub f W = sub f W.
+Proof.
+  intros f W. induction W as [|[|g r] W IH]; simpl; [reflexivity|exact IH|].
+  destruct (N.eqb g f); [rewrite IH|]; auto.
+Qed.
 
 Lemma is_zero_b_sound : forall t v, is_zero_b t v = true -> v = zero t.
 Proof.
@@ -79,31 +42,53 @@ Proof.
   destruct (N.eqb_spec k k') as [->|Hne]; intro H; [inversion H; left; reflexivity | right; auto].
 Qed.
 
+Lemma clean_b_step : forall fuel env t v W, W <> [] ->
+  clean_b (S fuel) env t v W =
+  if has_nil W then true else
+    let fields m fs :=
+      match nlist_get m env with
+      | Some fds => forallb (fun fd => let '(f, (ex, ft)) := fd in
+                                       if ex : bool then clean_b fuel env ft (field_of ft (aget f fs)) (psub f W) else true) fds
+      | None => true
+      end in
+    let entries e es :=
+      forallb (fun kx => let '(k, x) := kx in
+                         match psub k W with [] => false | _ => clean_b fuel env e x (psub k W) end) es
+      && heads_present W es in
+    match t, v with
+    | TStruct m, VStruct m' fs => N.eqb m m' && fields m fs
+    | TPtr (TStruct m), VPtr (TStruct m') (Some (VStruct m'' fs)) => N.eqb m m' && N.eqb m m'' && fields m fs
+    | TMap true e, VMap true e' (Some es) => ty_eqb e e' && entries e es
+    | TAny, VMap true TAny (Some es) => entries TAny es
+    | _, _ => false
+    end.
+Proof. intros fuel env t v [|p W'] H; [contradiction|reflexivity]. Qed.
+
 Theorem clean_b_sound : forall fuel env t v W, clean_b fuel env t v W = true -> clean env t v W.
 Proof.
   induction fuel as [|fuel IH]; intros env t v W H.
-  - destruct W as [|p W']; simpl in H.
+  - destruct W as [|p W']; cbn [clean_b] in H.
     + rewrite (is_zero_b_sound _ _ H). constructor.
     + destruct (has_nil (p :: W')) eqn:Hn; [|discriminate]. apply clean_written. apply has_nil_true. exact Hn.
-  - destruct W as [|p W']; [simpl in H; rewrite (is_zero_b_sound _ _ H); constructor|].
+  - destruct W as [|p W']; [cbn [clean_b] in H; rewrite (is_zero_b_sound _ _ H); constructor|].
     remember (p :: W') as W eqn:EW.
     assert (HW : W <> []) by (subst; discriminate).
-    cbn [clean_b] in H. rewrite EW in H. rewrite <- EW in H.
+    rewrite (clean_b_step fuel env t v W HW) in H. clear EW p W'. cbv zeta in H.
     destruct (has_nil W) eqn:Hn; [apply clean_written; apply has_nil_true; exact Hn|].
     pose proof (has_nil_false _ Hn) as Hnn.
     (* the two recursive parts *)
     assert (F : forall m fs,
       match nlist_get m env with
       | Some fds => forallb (fun fd => let '(f, (ex, ft)) := fd in
-                       if ex : bool then clean_b fuel env ft (field_of ft (aget f fs)) (sub f W) else true) fds
+                       if ex : bool then clean_b fuel env ft (field_of ft (aget f fs)) (psub f W) else true) fds
       | None => true
       end = true ->
       forall f ft, lookup_field env m f = Some (true, ft) -> clean env ft (field_of ft (aget f fs)) (sub f W)).
     { intros m fs Hf f ft Hl. unfold lookup_field in Hl. destruct (nlist_get m env) as [fds|]; [|discriminate].
-      apply nlist_get_In in Hl. rewrite forallb_forall in Hf. specialize (Hf _ Hl). cbn in Hf. apply IH. exact Hf. }
+      apply nlist_get_In in Hl. rewrite forallb_forall in Hf. specialize (Hf _ Hl). cbn in Hf. rewrite <- psub_sub. apply IH. exact Hf. }
     assert (E : forall e es,
       forallb (fun kx => let '(k, x) := kx in
-                 match sub k W with [] => false | _ => clean_b fuel env e x (sub k W) end) es
+                 match psub k W with [] => false | _ => clean_b fuel env e x (psub k W) end) es
       && heads_present W es = true ->
       (forall k x, aget k es = Some x -> sub k W <> []) /\
       (forall k x, aget k es = Some x -> clean env e x (sub k W)) /\
@@ -112,27 +97,35 @@ Proof.
       rewrite forallb_forall in He1. unfold heads_present in He2. rewrite forallb_forall in He2.
       split; [|split].
       - intros k x Hg. apply nlist_get_In in Hg. specialize (He1 _ Hg). cbn in He1.
-        destruct (sub k W); [discriminate|discriminate].
+        rewrite <- psub_sub. destruct (psub k W); [discriminate|discriminate].
       - intros k x Hg. apply nlist_get_In in Hg. specialize (He1 _ Hg). cbn in He1.
-        destruct (sub k W) eqn:Es; [discriminate|]. apply IH. exact He1.
+        rewrite <- psub_sub. destruct (psub k W) eqn:Es; [discriminate|]. apply IH. exact He1.
       - intros k Hs. apply sub_nonempty in Hs. destruct Hs as [r Hr]. specialize (He2 _ Hr). cbn in He2.
         destruct (aget k es); [discriminate|discriminate]. }
-    destruct t as [| | |m|u|ks e]; destruct v as [|z|s|m' fs|u' o|ks' e' o]; try discriminate.
+    destruct t as [| | |m|u|ks e].
+    + destruct v; discriminate.
+    + destruct v; discriminate.
     + (* any slot holding a map[string]any *)
+      destruct v as [|z|s|m' fs|u' o|ks' e' o]; try discriminate.
       destruct ks'; [|discriminate]. destruct e'; try discriminate. destruct o as [es|]; [|discriminate].
       destruct (E TAny es H) as [E1 [E2 E3]].
       eapply clean_map; eauto.
     + (* struct *)
+      destruct v as [|z|s|m' fs|u' o|ks' e' o]; try discriminate.
       apply andb_true_iff in H. destruct H as [Hm Hf]. apply N.eqb_eq in Hm. subst m'.
-      apply clean_struct; auto. apply F. exact Hf.
+      apply clean_struct; [exact HW|exact Hnn|apply F; exact Hf].
     + (* pointer to a struct *)
-      destruct u; try discriminate. destruct u'; try discriminate. destruct o as [w|]; [|discriminate].
+      destruct u as [| | |m| |]; try (destruct v; discriminate).
+      destruct v as [|z|s|m' fs|u' o|ks' e' o]; try discriminate.
+      destruct u' as [| | |m'| |]; try discriminate. destruct o as [w|]; [|discriminate].
       destruct w as [| | |m'' fs| |]; try discriminate.
       apply andb_true_iff in H. destruct H as [Hm Hf]. apply andb_true_iff in Hm. destruct Hm as [Hm1 Hm2].
       apply N.eqb_eq in Hm1. apply N.eqb_eq in Hm2. subst.
-      apply clean_ptr; auto. apply F. exact Hf.
+      apply clean_ptr; [exact HW|exact Hnn|apply F; exact Hf].
     + (* map *)
-      destruct ks; [|discriminate]. destruct ks'; [|discriminate]. destruct o as [es|]; [|discriminate].
+      destruct ks; [|destruct v; discriminate].
+      destruct v as [|z|s|m' fs|u' o|ks' e' o]; try discriminate.
+      destruct ks'; [|discriminate]. destruct o as [es|]; [|discriminate].
       apply andb_true_iff in H. destruct H as [He Hes]. apply ty_eqb_eq in He. subst e'.
       destruct (E e es Hes) as [E1 [E2 E3]].
       eapply clean_map; eauto.
